@@ -463,9 +463,9 @@ impl<'a> Runtime<'a> {
                 let is_truthy = match val {
                     Value::Bool(b) => b,
                     Value::Null => false, // null is falsy
-                    _ => unreachable!(
-                        "Semantic analysis guarantees only boolean expressions in conditions"
-                    ),
+                    _ => {
+                        return Err(RuntimeError::new(RuntimeErrorKind::TypeMismatch, cond.span()));
+                    }
                 };
                 if is_truthy {
                     self.exec_block_with_flow(then_b)
@@ -481,9 +481,12 @@ impl<'a> Runtime<'a> {
                     let should_continue = match val {
                         Value::Bool(b) => b,
                         Value::Null => false,
-                        _ => unreachable!(
-                            "Semantic analysis guarantees only boolean expressions in loop conditions"
-                        ),
+                        _ => {
+                            return Err(RuntimeError::new(
+                                RuntimeErrorKind::TypeMismatch,
+                                cond.span(),
+                            ));
+                        }
                     };
                     if !should_continue {
                         break;
